@@ -8,6 +8,10 @@
 //! 3e2..1e4 in f32; timestamps, map coordinates, Kelvin), against a reference that forms differences
 //! first and sums in twice the precision, with a tolerance derived from the rounding-error bound of
 //! the closed form evaluated in the working precision (4 x the first-order bound).
+//! Fits on offset data: RBF everywhere; linear / polynomial kernels in a must-return zone, only observed in
+//! between, and inside the regime of the listed findings `svc-offset-no-termination` /
+//! `svr-offset-no-termination` a fit that does not return is the known finding (see the end of `main`);
+//! the shrunk witnesses (corpus/C10/known_*.json) run on every run, last, under a 1 s watchdog (fits of that size return in well under a millisecond when they return).
 use serde_json::{json, Value};
 use smartcore::linalg::naive::dense_matrix::DenseMatrix;
 use smartcore::svm::svc::{self, SVCParameters, SVC};
@@ -331,6 +335,35 @@ thread_local! {
     static HANGS: std::cell::Cell<usize> = std::cell::Cell::new(0);
 }
 
+thread_local! {
+    /// watchdog override (seconds) for the offset fit families and the known-finding witnesses
+    static WATCHDOG: std::cell::Cell<Option<u64>> = std::cell::Cell::new(None);
+    /// fits that did not return inside the regime of a listed known finding
+    static KNOWN_HANGS: std::cell::Cell<usize> = std::cell::Cell::new(0);
+}
+
+/// rounding noise of the incrementally updated gradients of both optimizers: about u*C*n*max|K|
+fn gradient_noise(k: &Kern, x: &[Vec<f64>], c: f64) -> f64 {
+    let mut kmax = 0f64;
+    for a in x {
+        for b in x {
+            let v = k.closed_form(a, b).abs();
+            if v > kmax || v.is_nan() {
+                kmax = v;
+            }
+        }
+    }
+    f64::EPSILON / 2.0 * c * x.len() as f64 * kmax
+}
+
+/// The predicate of the listed findings `svc-offset-no-termination` / `svr-offset-no-termination`
+/// (KNOWN_FINDINGS.txt): kernel linear or polynomial and u*C*n*max|K| > 1e-3 * (the absolute threshold the
+/// optimizer compares its gradients with: 1000 in SVC's settle loop, tol in SVR's exit test). The outcome
+/// part -- fit does not return within the watchdog -- is decided by the caller.
+fn in_known_noise_regime(k: &Kern, x: &[Vec<f64>], c: f64, threshold: f64) -> bool {
+    matches!(k, Kern::Linear | Kern::Poly(..)) && !(gradient_noise(k, x, c) <= 1e-3 * threshold)
+}
+
 fn svc_input(k: &Kern, x: &[Vec<f64>], y: &[f64], c: f64, epoch: usize, tol: f64, reps: usize) -> Value {
     json!({"entry": "svc", "kernel": k.to_json(), "x": x, "y": y, "c": c, "epoch": epoch, "tol": tol, "reps": reps})
 }
@@ -424,11 +457,25 @@ fn check_svc(out: &mut Out, rng: &mut Rng, k: &Kern, x: &[Vec<f64>], y: &[f64], 
         out.eval(hash_f64s(&key) ^ hash_of(&k.name()), both >= 2 && n - both >= 2);
         key.pop();
         out.count(&format!("search:svc:{}:{}", family, k.name()));
-        match svc_guarded(k, x, y, c, epoch, tol, &q, false, 30) {
+        let secs = WATCHDOG.with(|w| w.get()).unwrap_or(30);
+        match svc_guarded(k, x, y, c, epoch, tol, &q, false, secs) {
             None => {
+                if in_known_noise_regime(k, x, c, 1e3) {
+                    out.known("svc-offset-no-termination", &format!("SVC::fit ({} kernel, {} rows, C = {}) did not return within {} s: gradient rounding noise u*C*n*max|K| = {:.2e} > 1 (1e-3 of the settle threshold 1000)", k.name(), n, c, secs, gradient_noise(k, x, c)));
+                    out.count("known:svc-offset-no-termination");
+                    KNOWN_HANGS.with(|h| h.set(h.get() + 1));
+                    return true;
+                }
                 HANGS.with(|h| h.set(h.get() + 1));
-                out.fail("svc_termination", "SVC::fit did not return within 30 s", svc_input(k, x, y, c, epoch, tol, reps));
+                out.fail("svc_termination", &format!("SVC::fit did not return within {} s", secs), svc_input(k, x, y, c, epoch, tol, reps));
                 return false;
+            }
+            Some(Err(msg)) if msg.contains("index out of bounds") && in_known_noise_regime(k, x, c, 1e3) => {
+                // the other outcome of the same finding: with gradients that are rounding noise `clean` drops every
+                // support vector and `finish` -> smo -> select_pair indexes the empty list (svc.rs, select_pair)
+                out.known("svc-offset-no-termination", &format!("SVC::fit ({} kernel, {} rows, C = {}) panicked instead of returning ({}): gradient rounding noise u*C*n*max|K| = {:.2e} > 1", k.name(), n, c, msg, gradient_noise(k, x, c)));
+                out.count("known:svc-offset-no-termination(panic: all support vectors cleaned away)");
+                return true;
             }
             Some(Err(msg)) => {
                 out.fail("svc_no_panic", &format!("fit / predict failed: {}", msg), svc_input(k, x, y, c, epoch, tol, reps.max(50)));
@@ -534,10 +581,15 @@ fn check_svr(out: &mut Out, k: &Kern, x: &[Vec<f64>], y: &[f64], eps: f64, c: f6
     key.extend(&[eps, c, tol]);
     out.eval(hash_f64s(&key) ^ hash_of(&k.name()), x.len() >= 4);
     out.count(&format!("search:svr:{}:{}", family, k.name()));
-    let secs = if k.psd() { 60 } else { 3 };
+    let secs = WATCHDOG.with(|w| w.get()).unwrap_or(if k.psd() { 60 } else { 3 });
     match svr_guarded(k, x, y, eps, c, tol, x, false, secs) {
         None => {
-            if k.psd() {
+            if in_known_noise_regime(k, x, c, tol) {
+                out.known("svr-offset-no-termination", &format!("SVR::fit ({} kernel, {} rows, C = {}, tol = {}) did not return within {} s: gradient rounding noise u*C*n*max|K| = {:.2e} > 1e-3 tol", k.name(), x.len(), c, tol, secs, gradient_noise(k, x, c)));
+                out.count("known:svr-offset-no-termination");
+                KNOWN_HANGS.with(|h| h.set(h.get() + 1));
+                true
+            } else if k.psd() {
                 HANGS.with(|h| h.set(h.get() + 1));
                 out.fail("svr_termination", &format!("SVR::fit did not return within {} s", secs), svr_input(k, x, y, eps, c, tol));
                 false
@@ -1122,6 +1174,51 @@ fn check_gram_offset(out: &mut Out, k: &Kern, x: &[Vec<f64>], prec: Prec, frame:
     }
 }
 
+/// a frame with the given offset/spread ratio (per-coordinate offsets of one or mixed signs)
+fn ratio_frame(rng: &mut Rng, p: usize, ratio: f64, spread: f64) -> OffsetFrame {
+    let offs: Vec<f64> = match rng.below(4) {
+        0 => vec![ratio * spread; p],
+        1 | 2 => (0..p).map(|_| ratio * spread * rng.uniform(0.5, 2.0)).collect(),
+        _ => (0..p).map(|_| ratio * spread * rng.uniform(0.5, 2.0) * if rng.bool() { 1.0 } else { -1.0 }).collect(),
+    };
+    OffsetFrame { offs, spread, ratio, family: "ratio" }
+}
+
+/// linear / polynomial kernel for a fit on offset data: integer degree, plain gamma (Gram entries of
+/// the size of <a,b>^degree) or gamma scaled to the offset (Gram entries of order 1, nearly constant)
+fn dot_kernel(rng: &mut Rng, fr: &OffsetFrame) -> Kern {
+    let o2: f64 = fr.offs.iter().map(|o| o * o).sum::<f64>().max(1e-300);
+    match rng.below(4) {
+        0 | 1 => Kern::Linear,
+        2 => Kern::Poly(*rng.pick(&[1.0, 2.0, 3.0]), rng.uniform(0.1, 1.5), *rng.pick(&[0.0, 1.0])),
+        _ => Kern::Poly(*rng.pick(&[1.0, 2.0, 3.0]), rng.uniform(0.1, 1.5) / o2, *rng.pick(&[0.0, 1.0])),
+    }
+}
+
+/// A fit whose outcome is only OBSERVED (between the regime where fits must return and the regime of
+/// the listed non-termination findings): counted into the distribution, never a failure.
+/// Returns the outcome ("ok", "no-return", "error", or the name of the violated clause).
+fn observe_svc(out: &mut Out, rng: &mut Rng, k: &Kern, x: &[Vec<f64>], y: &[f64], c: f64, epoch: usize, tol: f64, secs: u64, label: &str) -> String {
+    let q = make_queries(rng, x, 3);
+    let outcome = match svc_guarded(k, x, y, c, epoch, tol, &q, false, secs) {
+        None => "no-return".to_string(),
+        Some(Err(_)) => "error".to_string(),
+        Some(Ok(r)) => svc_oracle(k, x, y, c, &q, &r).map(|(o, _)| o).unwrap_or_else(|| "ok".to_string()),
+    };
+    out.count(&format!("observed:svc:{}:{}", label, outcome));
+    outcome
+}
+fn observe_svr(out: &mut Out, k: &Kern, x: &[Vec<f64>], y: &[f64], eps: f64, c: f64, tol: f64, secs: u64, label: &str) -> String {
+    let mut worst = f64::NEG_INFINITY;
+    let outcome = match svr_guarded(k, x, y, eps, c, tol, x, false, secs) {
+        None => "no-return".to_string(),
+        Some(Err(_)) => "error".to_string(),
+        Some(Ok(r)) => svr_oracle(k, x, y, eps, c, tol, &r, k.psd(), &mut worst).map(|(o, _)| o).unwrap_or_else(|| "ok".to_string()),
+    };
+    out.count(&format!("observed:svr:{}:{}", label, outcome));
+    outcome
+}
+
 /// centred rows (coordinates of order 1) for a Gram matrix: scattered, or a sorted 1-d series of
 /// events with a few near-coincident ones (nearly singular Gram matrices are the sensitive ones)
 fn centred_rows(rng: &mut Rng, n: usize, p: usize) -> Vec<Vec<f64>> {
@@ -1363,43 +1460,59 @@ fn corr_kernel_offset(out: &mut Out, k: &Kern, a: &Vec<f64>, b: &Vec<f64>) {
 }
 
 // ------------------------------------------------------------------------------------------
-fn replay(path: &str) -> i32 {
-    let v = read_replay(path);
-    let inp = if v.get("input").is_some() { v["input"].clone() } else { v.clone() };
-    let mut out = Out::new("C10", "replay");
-    let mut rng = Rng::new(7);
+/// one replay / corpus input evaluated by the oracle of its entry; false = unknown entry
+fn run_entry(out: &mut Out, rng: &mut Rng, inp: &Value, family: &str) -> bool {
     let k = Kern::from_json(&inp["kernel"]);
     match inp["entry"].as_str().unwrap_or("") {
         "svc" => {
             let x = rows_from_json(&inp["x"]);
             let y = f64s_from_json(&inp["y"]);
             let reps = inp["reps"].as_u64().unwrap_or(50).max(50) as usize;
-            check_svc(&mut out, &mut rng, &k, &x, &y, inp["c"].as_f64().unwrap(), inp["epoch"].as_u64().unwrap() as usize, inp["tol"].as_f64().unwrap(), reps, "replay");
+            check_svc(out, rng, &k, &x, &y, inp["c"].as_f64().unwrap(), inp["epoch"].as_u64().unwrap() as usize, inp["tol"].as_f64().unwrap(), reps, family);
         }
         "svr" => {
             let x = rows_from_json(&inp["x"]);
             let y = f64s_from_json(&inp["y"]);
             let mut worst = f64::NEG_INFINITY;
-            check_svr(&mut out, &k, &x, &y, inp["eps"].as_f64().unwrap(), inp["c"].as_f64().unwrap(), inp["tol"].as_f64().unwrap(), "replay", &mut worst);
+            check_svr(out, &k, &x, &y, inp["eps"].as_f64().unwrap(), inp["c"].as_f64().unwrap(), inp["tol"].as_f64().unwrap(), family, &mut worst);
         }
         "kernel" => {
-            check_kernel(&mut out, &k, &f64s_from_json(&inp["a"]), &f64s_from_json(&inp["b"]));
+            check_kernel(out, &k, &f64s_from_json(&inp["a"]), &f64s_from_json(&inp["b"]));
         }
         "gram" => {
-            check_gram(&mut out, &k, &rows_from_json(&inp["x"]));
+            check_gram(out, &k, &rows_from_json(&inp["x"]));
         }
         "kernel_offset" => {
             let mut acc = Acc::default();
-            check_kernel_offset(&mut out, &k, &f64s_from_json(&inp["a"]), &f64s_from_json(&inp["b"]), Prec::from_json(&inp["prec"]), "replay", &mut acc);
+            check_kernel_offset(out, &k, &f64s_from_json(&inp["a"]), &f64s_from_json(&inp["b"]), Prec::from_json(&inp["prec"]), "replay", &mut acc);
         }
         "gram_offset" => {
             let mut m = 0.0;
-            check_gram_offset(&mut out, &k, &rows_from_json(&inp["x"]), Prec::from_json(&inp["prec"]), "replay", &mut m);
+            check_gram_offset(out, &k, &rows_from_json(&inp["x"]), Prec::from_json(&inp["prec"]), "replay", &mut m);
         }
-        _ => {
-            eprintln!("unknown replay entry");
-            return 2;
+        _ => return false,
+    }
+    true
+}
+
+fn replay(path: &str) -> i32 {
+    let v = read_replay(path);
+    let inp = if v.get("input").is_some() { v["input"].clone() } else { v.clone() };
+    let mut out = Out::new("C10", "replay");
+    let mut rng = Rng::new(7);
+    if let (Some(entry), Some(c)) = (inp["entry"].as_str(), inp["c"].as_f64()) {
+        let threshold = if entry == "svc" { Some(1e3) } else if entry == "svr" { inp["tol"].as_f64() } else { None };
+        if let Some(th) = threshold {
+            if in_known_noise_regime(&Kern::from_json(&inp["kernel"]), &rows_from_json(&inp["x"]), c, th) {
+                // inside the regime of the listed non-termination findings a fit of this size returns in
+                // milliseconds or (1000x slower or) not at all
+                WATCHDOG.with(|w| w.set(Some(4)));
+            }
         }
+    }
+    if !run_entry(&mut out, &mut rng, &inp, "replay") {
+        eprintln!("unknown replay entry");
+        return 2;
     }
     if out.n_fail() > 0 {
         println!("REPLAY: property=C10 still fails: {}", path);
@@ -1735,5 +1848,99 @@ fn main() {
         }
     }
     out.set("svr_worst_kkt_excess_over_half_tol", json!(worst));
+    // ---- linear / polynomial kernel fits on offset data (the RBF fits above are shift-invariant; these are not) ----
+    // Decided from the data, not from the generator: the rounding noise of the incrementally updated gradients,
+    // u*C*n*max|K|, against the ABSOLUTE threshold the optimizer compares them with (SVC settle loop: 1000; SVR
+    // exit test: tol).
+    //  * noise <= 1e-3 threshold, offset/spread 1e3..1e6, spread <= 1: the fit must return (default watchdogs) and
+    //    satisfy every oracle;
+    //  * noise above that (the predicate of the listed findings svc-/svr-offset-no-termination): a fit that does
+    //    not return within a 1 s watchdog (such fits take milliseconds when they return) is the known finding, a returned model is judged by every oracle;
+    //  * noise below it but offset/spread >= 1e7 or spread 60 (slowly converging, not measured at scale): counted only.
+    // The thread of a fit that does not return keeps spinning until exit: few of them per run, and late.
+    let dot_fit = |orng: &mut Rng, i: usize, ratios: &[f64], spreads: &[f64]| {
+        let ratio = *orng.pick(ratios);
+        let spread = *orng.pick(spreads);
+        let n = orng.usize_in(4, if i % 5 == 0 { 40 } else { 16 });
+        let p = orng.usize_in(1, 4);
+        let fr = ratio_frame(orng, p, ratio, spread);
+        let k = dot_kernel(orng, &fr);
+        (n, p, fr, k)
+    };
+    let kname = |k: &Kern| match k {
+        Kern::Poly(_, g, _) if *g > 0.09 => "plain-gamma",
+        Kern::Poly(..) => "scaled-gamma",
+        _ => "dot",
+    };
+    let max_known = if t { 3 } else { 1 };
+    for (zone, ratios, spreads, cases) in [
+        ("below", &[1e3, 1e4, 1e5, 1e6][..], &[1.0, 1.0, 0.125, 1e-3][..], if t { 3000 } else { 240 }),
+        ("above", &[1e7, 1e8, 1e9, 3e9, 1e5][..], &[1.0, 60.0][..], if t { 260 } else { 34 }),
+    ] {
+        let (mut svc_known, mut svr_known) = (0, 0);
+        for i in 0..cases {
+            let (n, p, fr, k) = dot_fit(&mut orng, i, ratios, spreads);
+            let n = if zone == "above" { n.min(16) } else { n };
+            let c = *orng.pick(&cs);
+            let tl = *orng.pick(&tols);
+            let family = format!("offset-dot:{}:{}:{}", zone, fr.bucket(), kname(&k));
+            if i % 2 == 0 {
+                let lp = label_pair(&mut orng);
+                let (cx, y) = gen_classification(&mut orng, n, p, i % 7 == 0, i % 4 == 0, lp);
+                let x: Vec<Vec<f64>> = cx.iter().map(|r| fr.place(r, Prec::F64)).collect();
+                let ep = orng.usize_in(1, 3);
+                let regime = in_known_noise_regime(&k, &x, c, 1e3);
+                if regime && svc_known >= max_known {
+                    out.count("search:svc:offset-dot:not-run(enough fits of the known regime did not return)");
+                } else if regime || zone == "below" {
+                    WATCHDOG.with(|w| w.set(if regime { Some(1) } else { None }));
+                    let before = KNOWN_HANGS.with(|h| h.get());
+                    check_svc(&mut out, &mut orng, &k, &x, &y, c, ep, tl, 2, &format!("{}{}", family, if regime { ":known-regime" } else { "" }));
+                    svc_known += KNOWN_HANGS.with(|h| h.get()) - before;
+                    WATCHDOG.with(|w| w.set(None));
+                } else if observe_svc(&mut out, &mut orng, &k, &x, &y, c, ep, tl, 2, &family) == "no-return" {
+                    svc_known += 1;
+                }
+            } else {
+                let (cx, y) = gen_regression(&mut orng, n, p, i % 7 == 0);
+                let x: Vec<Vec<f64>> = cx.iter().map(|r| fr.place(r, Prec::F64)).collect();
+                if (0..x.len()).any(|i| (0..i).any(|j| x[i] == x[j])) {
+                    continue;
+                }
+                let eps = *orng.pick(&[0.0, 0.05, 0.1, 0.3, 0.5]);
+                let regime = in_known_noise_regime(&k, &x, c, tl);
+                if regime && svr_known >= max_known {
+                    out.count("search:svr:offset-dot:not-run(enough fits of the known regime did not return)");
+                } else if regime || zone == "below" {
+                    WATCHDOG.with(|w| w.set(if regime { Some(1) } else { None }));
+                    let before = KNOWN_HANGS.with(|h| h.get());
+                    check_svr(&mut out, &k, &x, &y, eps, c, tl, &format!("{}{}", family, if regime { ":known-regime" } else { "" }), &mut worst);
+                    svr_known += KNOWN_HANGS.with(|h| h.get()) - before;
+                    WATCHDOG.with(|w| w.set(None));
+                } else if observe_svr(&mut out, &k, &x, &y, eps, c, tl, 2, &family) == "no-return" {
+                    svr_known += 1;
+                }
+            }
+        }
+    }
+    out.set("svr_worst_kkt_excess_over_half_tol", json!(worst));
+    // ---- corpus/C10/*.json: the shrunk witnesses of the listed findings, every run, LAST ----
+    {
+        WATCHDOG.with(|w| w.set(Some(1)));
+        let dirs = [format!("{}/../corpus/C10", env!("CARGO_MANIFEST_DIR")), "/verif/corpus/C10".to_string()];
+        if let Some(dir) = dirs.iter().find(|d| std::path::Path::new(d).is_dir()) {
+            let mut files: Vec<_> = std::fs::read_dir(dir).map(|r| r.filter_map(|e| e.ok()).map(|e| e.path()).collect()).unwrap_or_default();
+            files.sort();
+            for f in files.iter().filter(|f| f.extension().map(|e| e == "json").unwrap_or(false)) {
+                let v = read_replay(f.to_str().unwrap());
+                let inp = if v.get("input").is_some() { v["input"].clone() } else { v.clone() };
+                out.count("search:corpus-file");
+                run_entry(&mut out, &mut orng, &inp, "corpus-file");
+            }
+        } else {
+            out.count("search:corpus-dir-not-found");
+        }
+        WATCHDOG.with(|w| w.set(None));
+    }
     out.finish(&a.out);
 }
